@@ -168,6 +168,36 @@ def unit_norm_sites(fi, prog=None, _depth=1):
         den_x = expand(fi, den)
         if not isinstance(den_x, ast.Subscript):
             continue
+        # broadcast wrapper  p[:, None] / p[None, :] / p[:, np.newaxis]
+        bel = index_elts(den_x)
+        if len(bel) == 2 and any(is_full_slice(x) for x in bel) and any((isinstance(x, ast.Constant) and x.value is None) or src(x).endswith("newaxis") for x in bel):
+            den_x = expand(fi, den_x.value)
+            if not isinstance(den_x, ast.Subscript):
+                continue
+            vel = index_elts(den_x)
+            # vectorised pivot: X[argmax(abs(X), axis=0), arange(n)]  (or the transposed arrangement)
+            if len(vel) == 2:
+                found = None
+                for pos_ in (0, 1):
+                    a_ = argreduce(prog, fi, expand(fi, vel[pos_]), ARGMAX)
+                    other = expand(fi, vel[1 - pos_])
+                    if a_ is not None and isinstance(other, ast.Call) and callee_name(prog, fi, other) in ("numpy.arange", "range"):
+                        found = (pos_, a_, expand(fi, vel[pos_]))
+                if found is not None:
+                    pos_, a_, call_ = found
+                    inner = strip_abs(prog, fi, expand(fi, a_))
+                    ax = kwarg(call_, "axis", 1)
+                    num_x = expand(fi, numr)
+                    base = num_x.value if isinstance(num_x, ast.Attribute) and num_x.attr == "T" else num_x
+                    if inner is None:
+                        out.append((n, False, f"pivot index is argmax of `{src(a_)}`, not of a magnitude (abs missing)"))
+                    elif not (isinstance(ax, ast.Constant) and ax.value == pos_):
+                        out.append((n, False if isinstance(ax, ast.Constant) else None, f"pivot searched along axis `{src(ax) if ax is not None else None}` but used as index {pos_}"))
+                    elif dump(expand(fi, inner)) != dump(expand(fi, den_x.value)) or dump(expand(fi, base)) != dump(expand(fi, den_x.value)):
+                        out.append((n, False, f"the largest-magnitude components are searched in `{src(inner)}` / taken from `{src(den_x.value)}` but `{src(base)}` is normalised"))
+                    else:
+                        out.append((n, True, f"`{src(numr)}` divided column-wise by its own components at argmax(abs(.), axis={pos_})"))
+                    continue
         arg_pos = None
         arr = None
         elts = index_elts(den_x)
@@ -562,12 +592,17 @@ class _Inline(ast.NodeTransformer):
             return node
         if r.node.decorator_list and not getattr(r, "is_static", False):
             return node
+        bound = False
         if r.cls is not None and not getattr(r, "is_static", False):
-            return node
+            # an instance method called on `self` from a method of the same object: `self` means the same thing in both bodies
+            if not (isinstance(node.func, ast.Attribute) and isinstance(node.func.value, ast.Name) and node.func.value.id == "self"
+                    and getattr(self.fi, "cls", None) is not None and not getattr(r, "is_classmethod", False) and not getattr(r, "is_property", False)):
+                return node
+            bound = True
         body = _simple_body(r.node)
         if body is None:
             return node
-        m, errs = bind_args(r.node, node)
+        m, errs = bind_args(r.node, node, bound=bound)
         if errs:
             return node
         pos, kwo, _, _ = params_of(r.node)
@@ -575,7 +610,7 @@ class _Inline(ast.NodeTransformer):
         a = r.node.args
         defaults = dict(zip(pos[len(pos) - len(a.defaults):], a.defaults))
         defaults.update({k.arg: d for k, d in zip(a.kwonlyargs, a.kw_defaults) if d is not None})
-        for prm in pos + kwo:
+        for prm in (pos[1:] if bound else pos) + kwo:
             if prm in m:
                 env[prm] = m[prm]
             elif prm in defaults:
@@ -624,6 +659,16 @@ class _Fold(ast.NodeTransformer):
         if isinstance(node.value, (ast.Tuple, ast.List)) and isinstance(node.slice, ast.Constant) and isinstance(node.slice.value, int) \
                 and -len(node.value.elts) <= node.slice.value < len(node.value.elts) and not any(isinstance(e, ast.Starred) for e in node.value.elts):
             return node.value.elts[node.slice.value]
+        # X[a, b, :][s] -> X[a, b, s]   (exactly one full slice, all other indices scalars)
+        if isinstance(node.value, ast.Subscript) and not isinstance(node.slice, ast.Tuple):
+            inner = index_elts(node.value)
+            full = [i for i, x in enumerate(inner) if is_full_slice(x)]
+            scal = [x for x in inner if not isinstance(x, ast.Slice)]
+            if len(full) == 1 and len(scal) == len(inner) - 1 and all(isinstance(x, (ast.Constant, ast.Name)) and not (isinstance(x, ast.Constant) and x.value in (None, Ellipsis)) for x in scal) \
+                    and (len(inner) > 1):
+                new_elts = list(inner)
+                new_elts[full[0]] = node.slice
+                return ast.Subscript(value=node.value.value, slice=ast.Tuple(elts=new_elts, ctx=ast.Load()), ctx=node.ctx)
         # [e(j) for j in range(n)][k] -> e(k)   /  range(a, b): e(a + k)
         v = node.value
         if isinstance(v, ast.ListComp) and len(v.generators) == 1 and not v.generators[0].ifs and isinstance(v.generators[0].target, ast.Name) \
@@ -1047,3 +1092,122 @@ def forwarded_args(prog, fi, target_qual, depth=2, _seen=()):
                 out.append({"call": rec["call"], "holder": rec["holder"], "chain": [fi.node.name] + rec["chain"], "args": args, "missing": rec["missing"],
                             "complete": rec["complete"] and complete, "errors": rec["errors"] + errs, "outer_call": c})
     return out
+
+
+# ----------------------------------------------------------------------------- element-wise canonical forms
+class _CanonElem(ast.NodeTransformer):
+    """np.real(X) -> X.real, np.imag(X) -> X.imag, np.abs/np.absolute(X) -> abs(X), X.T[k] -> X[:, k], np.conj(X) -> X.conj()"""
+
+    def __init__(self, prog, fi):
+        self.prog, self.fi = prog, fi
+
+    def visit_Call(self, node):
+        self.generic_visit(node)
+        nm = callee_name(self.prog, self.fi, node)
+        if nm in ("numpy.real", "numpy.imag") and len(node.args) == 1:
+            return ast.Attribute(value=node.args[0], attr=nm.split(".")[-1], ctx=ast.Load())
+        if nm in ("numpy.abs", "numpy.absolute") and len(node.args) == 1:
+            return ast.Call(func=ast.Name(id="abs", ctx=ast.Load()), args=node.args, keywords=[])
+        return node
+
+    def visit_Subscript(self, node):
+        self.generic_visit(node)
+        if isinstance(node.value, ast.Attribute) and node.value.attr == "T" and not isinstance(node.slice, (ast.Tuple, ast.Slice)):
+            return ast.Subscript(value=node.value.value, slice=ast.Tuple(elts=[ast.Slice(lower=None, upper=None, step=None), node.slice], ctx=ast.Load()), ctx=node.ctx)
+        return node
+
+
+def canon_elem(prog, fi, e):
+    return _CanonElem(prog, fi).visit(copy.deepcopy(e))
+
+
+def strip_index(e, k):
+    """generalise an element expression to the whole array: X[k] -> X, X[:, k] -> X (k a loop-variable name); returns
+    (expression, [(array dump, axis)] of the stripped accesses)"""
+    hits = []
+
+    class T(ast.NodeTransformer):
+        def visit_Subscript(self, node):
+            self.generic_visit(node)
+            if isinstance(node.slice, ast.Name) and node.slice.id == k:
+                hits.append((dump(node.value), 0))
+                return node.value
+            if isinstance(node.slice, ast.Tuple) and len(node.slice.elts) == 2 and is_full_slice(node.slice.elts[0]) and isinstance(node.slice.elts[1], ast.Name) and node.slice.elts[1].id == k:
+                hits.append((dump(node.value), 1))
+                return node.value
+            return node
+    return T().visit(copy.deepcopy(e)), hits
+
+
+def loop_variant_names(loop):
+    """names whose value (may) depend on the loop variable: the target, and transitively everything assigned / accumulated /
+    appended inside the body from an expression that mentions a variant name"""
+    variant = {n.id for n in ast.walk(loop.target) if isinstance(n, ast.Name)}
+
+    def mentions(e):
+        return any(isinstance(z, ast.Name) and z.id in variant for z in ast.walk(e))
+    changed = True
+    while changed:
+        changed = False
+        for st in ast.walk(loop):
+            new = set()
+            if isinstance(st, ast.Assign) and mentions(st.value):
+                for t in st.targets:
+                    base = t
+                    while isinstance(base, (ast.Subscript, ast.Attribute)):
+                        base = base.value
+                    new |= {n.id for n in ast.walk(base) if isinstance(n, ast.Name)} if not isinstance(t, (ast.Tuple, ast.List)) else {n.id for n in ast.walk(t) if isinstance(n, ast.Name)}
+            elif isinstance(st, ast.AugAssign) and (mentions(st.value) or mentions(st.target)):
+                base = st.target
+                while isinstance(base, (ast.Subscript, ast.Attribute)):
+                    base = base.value
+                new |= {n.id for n in ast.walk(base) if isinstance(n, ast.Name)}
+            elif isinstance(st, ast.For) and st is not loop and mentions(st.iter):
+                new |= {n.id for n in ast.walk(st.target) if isinstance(n, ast.Name)}
+            elif isinstance(st, (ast.ListComp, ast.GeneratorExp, ast.SetComp, ast.DictComp)):
+                for g in st.generators:
+                    if mentions(g.iter):
+                        new |= {n.id for n in ast.walk(g.target) if isinstance(n, ast.Name)}
+            elif isinstance(st, ast.Call) and isinstance(st.func, ast.Attribute) and st.func.attr in ("append", "extend", "insert", "update", "add") \
+                    and isinstance(st.func.value, ast.Name) and any(mentions(a) for a in st.args):
+                new.add(st.func.value.id)
+            if new - variant:
+                variant |= new
+                changed = True
+    return variant
+
+
+# ----------------------------------------------------------------------------- outcomes under constant seeds
+def outcomes(body, consts):
+    """the set of ways the statement list can end once the branches decidable from `consts` are removed:
+    'raise:<Exc>' / 'return' / 'fall' (runs off the end).  Loops and try blocks are treated as falling through unless they
+    contain nothing but raises."""
+    stmts = prune(body, consts)
+    return _outcomes(stmts)
+
+
+def _exc_name(r):
+    if r.exc is None:
+        return "re-raise"
+    return src(r.exc.func) if isinstance(r.exc, ast.Call) else src(r.exc)
+
+
+def _outcomes(stmts):
+    for i, s in enumerate(stmts):
+        if isinstance(s, ast.Raise):
+            return {"raise:" + _exc_name(s)}
+        if isinstance(s, ast.Return):
+            return {"return"}
+        if isinstance(s, ast.If):
+            a, b = _outcomes(s.body), _outcomes(s.orelse)
+            both = a | b
+            if "fall" not in both:
+                return both
+            rest = _outcomes(stmts[i + 1:])
+            return (both - {"fall"}) | rest
+        if isinstance(s, (ast.With,)):
+            a = _outcomes(s.body)
+            if "fall" not in a:
+                return a
+            return (a - {"fall"}) | _outcomes(stmts[i + 1:])
+    return {"fall"}
